@@ -122,7 +122,7 @@ func (g *Engine) Start() error {
 
 	if g.AsyncReadInPoller {
 		if g.IOExecute == nil {
-			g.ioTaskPool = taskpool.NewIO(0, 0, 0)
+			g.ioTaskPool = taskpool.NewIO(0, 0, g.ReadBufferSize)
 			g.IOExecute = g.ioTaskPool.Go
 		}
 	}
